@@ -141,6 +141,19 @@ def reaches_send(F, cb, depth=0, _seen=None):
     return False
 
 
+def routines_of(F, b, depth=0):
+    """The event-emitting routine(s) a body belongs to: its root fn if that sends events, else — a private helper that only
+    computes (`try_new_world()`, `catch_panic(..)`) — the routines of its callers.  [(routine root fn, call site in it | None)]"""
+    root = F.root_fn(b)
+    if depth >= 3 or reaches_send(F, root) or (root.impl or {}).get("trait"):
+        return [(root, None)]
+    out = []
+    for site in F.callers_of(root):
+        for r, cs in routines_of(F, site.body, depth + 1):
+            out.append((r, cs or site))
+    return out or [(root, None)]
+
+
 def attempt_tree(F):
     """All bodies of the attempt routine: RUN_SCENARIO's fn, everything nested in it, and (transitively) every crate-local
     callee that is a method of the same impl type (the `Executor`), with their nested bodies."""
